@@ -249,6 +249,15 @@ ApSpareWrite(st, a, fr) ==
   LET V == st.v[a.v] IN
   [Out(SetV(st, a.v, [V EXCEPT !.el = @ \o [j \in 1..a.k |-> <<fr[j], 0>>]]), "ok", <<>>, <<>>) EXCEPT !.capc = CapC(a.v, -2, -2)]
 
+(* the vector object placed at another address: the storage base (typed and byte view) stays aligned for the element (C12) *)
+ApPlace(st, a) == Out(st, "ok", << <<0, 0>> >>, <<>>)
+
+(* a run of a.n pushes (amortisation, C10): fr[1] is the first identity of the run *)
+ApPushMany(st, a, fr) ==
+  LET V == st.v[a.v] IN
+  Out(SetV(st, a.v, [V EXCEPT !.el = @ \o [j \in 1..a.n |-> <<IF Cfg.ids THEN fr[1] + j - 1 ELSE 0, 0>>],
+                              !.cap = GrowCap(@, Len(V.el) + a.n)]), "ok", <<>>, <<>>)
+
 ---------------------------------------------------------------------------
 (* drain / splice *)
 
@@ -374,6 +383,8 @@ Apply(st, a, fr) ==
     [] a.op = "downcast_q"         -> ApDowncastQ(st, a)
     [] a.op = "swap"               -> ApSwap(st, a, fr)
     [] a.op = "spare_write"        -> ApSpareWrite(st, a, fr)
+    [] a.op = "place"              -> ApPlace(st, a)
+    [] a.op = "push_many"          -> ApPushMany(st, a, fr)
 
 (* Is the action applicable at all (borrow discipline; which handle must be present)?  A trace event  *)
 (* that is not applicable is a tool error of the driver, not a verdict about the implementation.      *)
@@ -391,7 +402,7 @@ Applicable(st, a) ==
        [] a.op = "ext_drop" -> st.ext # <<>>
        [] a.op = "clone_vec" -> hk = "none" /\ a.to \in Vecs /\ a.to # a.v /\ Quiet(st, a.to)
        [] a.op = "ce_probe" -> hk = "none"
-       [] a.op \in {"raw_roundtrip", "push_wrong", "insert_wrong", "splice_wrong"} -> hk = "none"
+       [] a.op \in {"raw_roundtrip", "push_wrong", "insert_wrong", "splice_wrong", "place", "push_many"} -> hk = "none"
        [] a.op = "swap_wrong" -> hk = "none" /\ a.i < Len(st.v[a.v].el)
        [] a.op = "spare_write" -> hk = "none" /\ Len(st.v[a.v].el) + a.k <= st.v[a.v].cap
        [] a.op = "downcast_q" ->
